@@ -3,7 +3,8 @@
 Generated (Hypothesis RuleBasedStateMachine): a per-machine pool of 3 problems x 3 parameter
 sets (incl. custom scaling, filter penalties, all controllers) x 2 starts; rules: create a solver,
 solve on an existing solver object (re-use), solve on a fresh solver, solve an unrelated problem in
-between (including ones that end in an exception).  The recorded operation list is the case; the
+between (including ones that end in an exception), solve with the flow-integration solver (one re-used
+IntegrationSolver object per problem, or a fresh one).  The recorded operation list is the case; the
 pure check function replays it in one process.
 
 Model: dict (problem, params, start) -> digest of the first solve with that key (every step
@@ -27,7 +28,7 @@ BUDGET = {"quick": 8, "thorough": 250}
 STEP_COUNT = 20
 CASE_TIMEOUT = 300
 RULE = (
-    "case = (pool of specs/params/starts, operation list new|solve|fresh|other|again); every solve is one "
+    "case = (pool of specs/params/starts, operation list new|solve|fresh|other|again|badderiv|integ); every solve is one "
     "execution. distinct = SHA-256 of the case; non-trivial = some key was solved at least twice "
     "with another solve in between, at least once on a re-used Solver object."
 )
@@ -149,8 +150,40 @@ def _bad_derivative_solve(pool, i):
         pass
 
 
+def _integration_digest(pool, i, k, isolvers):
+    """(sha256, short description) of an IntegrationSolver run; None when the 20 s alarm expired"""
+    import hashlib
+
+    from pygradflow.integration.integration_solver import IntegrationSolver
+    from vf.trace import Timeout, alarm, result_bytes
+
+    c = _case_for(pool, i, 0, k)
+    c = dict(c, scaling={"kind": "none"})
+    spec = c["spec"]
+    x0, y0 = S.x0_array(spec, c["start"]), S.y0_array(spec, c["start"])
+    try:
+        if isolvers is not None and i in isolvers:
+            solver = isolvers[i]
+        else:
+            problem, params, _, _ = SC.build(c, iteration_limit=25)
+            solver = IntegrationSolver(problem, params)
+            if isolvers is not None:
+                isolvers[i] = solver
+        with alarm(20):
+            res = solver.solve(x0, y0)
+        h = hashlib.sha256(result_bytes(res)).hexdigest()
+        return (h, f"{res.status.name} after {res.iterations} iterations, x={np.asarray(res.x).tolist()}")
+    except Timeout:
+        if isolvers is not None:
+            isolvers.pop(i, None)  # interrupted in the middle of a solve: do not use this object again
+        return None
+    except Exception as e:  # the integration solver's own failures are not C10's subject, but must repeat identically
+        return (f"{type(e).__name__}:{e}", f"{type(e).__name__}: {str(e)[:80]}")
+
+
 def check(case):
     pool, ops = case["pool"], case["ops"]
+    isolvers = {}
     labels = []
     solvers = []  # (i, j, solver, problem, params)
     buffers = {}  # per re-used solver: start-point buffers overwritten in place between solves
@@ -199,6 +232,26 @@ def check(case):
         if kind == "badderiv":
             _bad_derivative_solve(pool, op[1])
             labels.append("bad_derivative_solve")
+            continue
+        if kind == "integ":
+            # the flow-integration solver on the same pool: one IntegrationSolver object per problem is kept and re-used
+            _, i, k, reuse = op
+            i, k = i % 3, k % 2
+            if pool["specs"][i]["n"] > 4:
+                continue
+            dg = _integration_digest(pool, i, k, isolvers if reuse else None)
+            nsolves += 1
+            if dg is None:
+                labels.append("integration_timeout")
+                continue
+            key = ("I", i, k)
+            labels.append("integration_solve")
+            if key in model:
+                if model[key][1] != dg:
+                    return violation(f"history-dependence|integration|{'reused' if reuse else 'fresh'}", f"op {idx} {op}: IntegrationSolver result for problem {i}, start {k} differs from the first one at op {model[key][0]}: {dg[1]} vs {model[key][1][1]}", labels, sub=nsolves)
+                labels.append("repeat:integration")
+            else:
+                model[key] = (idx, dg)
             continue
         try:
             if kind == "new":
@@ -298,6 +351,10 @@ def machine(tier, sink, checkfn):
         @rule(t=st.integers(0, 30))
         def solve_earlier_key_again(self, t):
             self.ops.append(["again", t])
+
+        @rule(i=st.integers(0, 2), k=st.integers(0, 1), reuse=st.booleans())
+        def solve_with_flow_integration_solver(self, i, k, reuse):
+            self.ops.append(["integ", i, k, reuse])
 
         @rule(i=st.integers(0, 2))
         def solve_with_failing_derivative_check(self, i):
